@@ -32,9 +32,17 @@ const negLimit = 4294967295
 type op struct {
 	kind       string
 	t, k, v, r int
+	a          []int // all arguments (replayed operations and the macro operations of scale.go)
 }
 
 func (o op) sx() Sx {
+	if o.a != nil || macroKinds[o.kind] {
+		l := make([]Sx, len(o.a))
+		for i, x := range o.a {
+			l[i] = I(x)
+		}
+		return T(o.kind, l...)
+	}
 	switch o.kind {
 	case "ins":
 		return T(o.kind, I(o.t), I(o.k), I(o.v), I(o.r))
@@ -62,7 +70,13 @@ func parseOp(s Sx) op {
 		}
 		return 0
 	}
-	o := op{kind: s.Tag()}
+	o := op{kind: s.Tag(), a: []int{}}
+	for _, x := range a {
+		o.a = append(o.a, x.Int())
+	}
+	if macroKinds[o.kind] {
+		return o
+	}
 	switch o.kind {
 	case "ins":
 		o.t, o.k, o.v, o.r = g(0), g(1), g(2), g(3)
@@ -376,6 +390,7 @@ func emit(c *Config, kind string, ntrees int, ops []op) {
 	c.Emit(T("kind", A(kind)), T("nt", B(res.w.nIns >= 3 && res.w.nDel >= 1)), T("ntrees", I(ntrees)), T("ops", sops...), T("obs", res.obs...))
 	if hang {
 		c.Close()
+		closeSide()
 		os.Exit(0)
 	}
 }
@@ -419,10 +434,25 @@ type gen struct {
 	ntrees int
 	uni    int
 	mul    int
+	tab    []int // when set: the universe is these keys (ascending), else i*mul
 	ops    []op
 }
 
-func (g *gen) key() int { return g.c.Rng.Intn(g.uni) * g.mul }
+// the i-th key of the universe
+func (g *gen) kv(i int) int {
+	if g.tab != nil {
+		return g.tab[i]
+	}
+	return i * g.mul
+}
+
+func (g *gen) key() int { return g.kv(g.c.Rng.Intn(g.uni)) }
+
+// keys at c-1, c, c+1 of the machine limits, and pairs exactly 2^31 apart
+var straddlePool = []int{0, 1, 2, 5, 255, 256, 257, 32767, 32768, 32769, 65535, 65536, 65537, 1073741824,
+	2147483646, 2147483647, 2147483648, 2147483649, 2147483650, 2147483653, 3221225472, 4294967291, 4294967292,
+	4294967293, 4294967294, 4294967295}
+
 func (g *gen) val() int {
 	r := g.c.Rng
 	switch r.Intn(8) {
@@ -522,8 +552,19 @@ func (g *gen) randomOp(insW, delW, qW int) {
 func newGen(c *Config) *gen {
 	r := c.Rng
 	g := &gen{c: c, ntrees: 1 + r.Intn(3), uni: 3 + r.Intn(58), mul: 1}
-	if r.Intn(4) == 0 {
+	switch r.Intn(8) {
+	case 0, 1:
 		g.mul = 71582788 // keys up to 2^32-16: comparisons must not be done in int32
+	case 2, 3:
+		// keys straddling 2^8, 2^15, 2^16, 2^31 and ending at 2^32-1
+		if g.uni > len(straddlePool) {
+			g.uni = len(straddlePool)
+		}
+		g.tab = append([]int{}, r.Perm(len(straddlePool))[:g.uni]...)
+		for i := range g.tab {
+			g.tab[i] = straddlePool[g.tab[i]]
+		}
+		sort.Ints(g.tab)
 	}
 	return g
 }
@@ -561,7 +602,7 @@ func walk(c *Config) *gen {
 		sort.Sort(sort.Reverse(sort.IntSlice(keys)))
 	}
 	for _, k := range keys {
-		g.add(op{kind: "ins", t: t, k: k * g.mul, v: g.val(), r: -1})
+		g.add(op{kind: "ins", t: t, k: g.kv(k), v: g.val(), r: -1})
 	}
 	fwd := r.Intn(2) == 0
 	step := "next"
@@ -578,9 +619,9 @@ func walk(c *Config) *gen {
 		// register 0 points at the element with key k
 		if r.Intn(delP) == 0 {
 			if r.Intn(2) == 0 {
-				g.add(op{kind: "fge", t: t, k: k * g.mul, r: 1})
+				g.add(op{kind: "fge", t: t, k: g.kv(k), r: 1})
 			} else {
-				g.add(op{kind: "fle", t: t, k: k * g.mul, r: 1})
+				g.add(op{kind: "fle", t: t, k: g.kv(k), r: 1})
 			}
 			if r.Intn(4) != 0 {
 				g.add(op{kind: step, r: 0})
@@ -589,9 +630,9 @@ func walk(c *Config) *gen {
 				// delete first, then re-position from a neighbour
 				g.add(op{kind: "deli", r: 1})
 				if fwd {
-					g.add(op{kind: "fge", t: t, k: k * g.mul, r: 0})
+					g.add(op{kind: "fge", t: t, k: g.kv(k), r: 0})
 				} else {
-					g.add(op{kind: "fle", t: t, k: k * g.mul, r: 0})
+					g.add(op{kind: "fle", t: t, k: g.kv(k), r: 0})
 				}
 			}
 		} else {
@@ -609,7 +650,7 @@ func walk(c *Config) *gen {
 	g.add(op{kind: "len", t: t})
 	for _, k := range r.Perm(g.uni) {
 		if r.Intn(4) != 0 {
-			g.add(op{kind: "delk", t: t, k: k * g.mul})
+			g.add(op{kind: "delk", t: t, k: g.kv(k)})
 		}
 	}
 	g.add(op{kind: "len", t: t})
@@ -619,6 +660,7 @@ func walk(c *Config) *gen {
 func main() {
 	c := Setup()
 	defer c.Close()
+	defer closeSide()
 	if c.Replay != "" {
 		for _, cs := range c.ReplayCases() {
 			f, _ := cs.Field("ops")
@@ -630,8 +672,21 @@ func main() {
 			if x, ok := cs.Field("ntrees"); ok {
 				nt = x.Args()[0].Int()
 			}
+			if _, ok := cs.Field("scale"); ok {
+				emitScale(c, "replay", nt, ops)
+				continue
+			}
+			flushScale(c) // keep the order of the replay file
 			emit(c, "replay", nt, ops)
 		}
+		flushScale(c)
+		return
+	}
+	// the scale family first (the cases run in parallel; the driver judges them in child processes
+	// while it replays the small cases)
+	scaleCases(c)
+	flushScale(c)
+	if os.Getenv("C05_SCALE_ONLY") != "" { // development aid
 		return
 	}
 	if c.Tier == "quick" {
